@@ -15,6 +15,7 @@ import (
 	"github.com/influxdata/influxdb/services/retention"
 	"github.com/influxdata/influxdb/toml"
 	"verifharness/fw"
+	"verifharness/props/c08"
 	"verifharness/metah"
 )
 
@@ -107,6 +108,14 @@ func genCase(r *fw.Rand) fw.Case {
 			ops = append(ops, fmt.Sprintf("truncate now%+d", offs[r.Intn(len(offs))]))
 		case 7:
 			ops = append(ops, fmt.Sprintf("updaterp db0 rp%d - %d - - 0", r.Intn(nrp), durs[r.Intn(len(durs))]))
+		case 8:
+			// a batch of writes, not in time order, some around the retention boundary: only
+			// points older than the retention period may be dropped
+			var pts []string
+			for k, n := 0, 2+r.Intn(5); k < n; k++ {
+				pts = append(pts, fmt.Sprintf("now%+d:%d", offs[r.Intn(len(offs))]-int64(r.Intn(1000)), c08.SeriesHash(r.Intn(8))))
+			}
+			ops = append(ops, fmt.Sprintf("map now+0 db0 rp%d %s", r.Intn(nrp), strings.Join(pts, ",")))
 		default:
 			loc := csvInts(r, ngroups*2+3, r.Intn(ngroups*2+3))
 			fsg, fsh := "-", "-"
@@ -282,6 +291,8 @@ func (Prop) RunImpl(c fw.Case) []string {
 		f := strings.Fields(op)
 		if f[0] == "pass" {
 			_, out[i] = runPass(m, f)
+		} else if f[0] == "map" {
+			out[i] = c08.StepOp(m, op)
 		} else {
 			out[i] = m.Step(op)
 		}
@@ -294,6 +305,28 @@ func (Prop) Oracle(c fw.Case, implOut []string) fw.Verdict {
 	m := metah.New(true)
 	for _, op := range c.Ops {
 		f := strings.Fields(op)
+		if f[0] == "map" {
+			// a write is dropped as too old only if it is older than the retention period
+			now, _ := strconv.ParseInt(f[1], 10, 64)
+			var dur int64
+			for _, db := range m.F.Data().Databases {
+				if db.Name != metah.Nm(f[2]) {
+					continue
+				}
+				for _, rp := range db.RetentionPolicies {
+					if rp.Name == metah.Nm(f[3]) {
+						dur = int64(rp.Duration)
+					}
+				}
+			}
+			ts, dropped := c08.Dropped(m, op)
+			for k := range ts {
+				if dropped[k] && (dur == 0 || ts[k] >= now-dur+int64(5*time.Second)) {
+					return fw.Verdict{OK: false, Why: fmt.Sprintf("%s: the point at %d is dropped as too old; the retention period (%d) reaches back to %d", op, ts[k], dur, now-dur), Signature: "a write younger than the retention period is dropped"}
+				}
+			}
+			continue
+		}
 		if f[0] != "pass" {
 			m.Step(op)
 			continue
